@@ -13,7 +13,13 @@ for sid in sorted(os.listdir(root)):
     if not os.path.exists(mp):
         continue
     meta = json.load(open(mp))
-    r = S.test_patch(sid, open(os.path.join(d, "patch.diff")).read(), S.ALL, "quick")
+    # the owner, every check that fired on the first run, and (FULL=1) all 19
+    use = sorted(set([meta["breaks_property"]] + (meta.get("checks_that_fired_quick") or []) + (meta.get("checks_that_fired_thorough") or [])))
+    if os.environ.get("FULL"):
+        use = S.ALL
+    r = S.test_patch(sid, open(os.path.join(d, "patch.diff")).read(), use, "quick")
+    meta.setdefault("final", {})
+    meta["final_checks_run"] = use
     if "error" in r:
         meta["final"] = {"error": r["error"]}
     else:
